@@ -158,3 +158,11 @@ package file
 //@ loop 2: decreases len(task.GlobDependencies) - $i
 //@ loop 3: invariant 0 <= $i
 //@ loop 3: decreases len(task.GlobOutputs) - $i
+
+// Env: one KEY=VALUE pair for every variable (envPos[k] is the index of k's pair).
+//@ func (*SpokFile).Env
+//@ props C13
+//@ modifies envPos
+//@ ensures [C13,every-variable-exported-with-its-value] forall k string :: {dom(s.Vars, k)} dom(s.Vars, k) ==> 0 <= envPos[k] && envPos[k] < len(result) && result[envPos[k]] == k + "=" + s.Vars[k]
+//@ at call append#0: ghost envPos = store(envPos, key, len(results))
+//@ loop 0: invariant mapval(s.Vars) == mapval(s.Vars) && forall k string :: {$seen[k]} $seen[k] ==> dom(s.Vars, k) && 0 <= envPos[k] && envPos[k] < len(results) && results[envPos[k]] == k + "=" + s.Vars[k]
